@@ -6,22 +6,59 @@ PROPS = ["C03/Props.v"]
 META = dict(
     text="Rocq theorems over an executable model of the pkg/obiiter stream combinators as functions on arrival histories "
          "(batch number, records): for every partition into batches (empty ones included) and every arrival permutation, "
-         "SortBatches (via Common/Reseq), Rebatch, FilterEmpty, FilterOn, DivideOn, Distribute, Concat, Pool, IBatchOver, the "
-         "worker pool under any schedule and the reader->workers->filter->rebatch->resequencer pipeline deliver exactly the "
-         "expected records in input order with output numbers 0..m-1. On every run the REAL combinators are fed explicit "
-         "histories (all permutations of small batch-number sets, random partitions, 1..8 workers), drained under a deadline, "
-         "judged by a direct Python oracle and compared with the model evaluated by vm_compute.",
-    note="Trusted: Go channels / WaitGroup / scheduler are not modelled (termination is observed with a deadline, not proved); "
-         "a worker pool is modelled as 'any permutation of the mapped batches' (LTS over take/emit labels proved to emit such a "
-         "permutation). Split used directly, Speed and the memory limiter are not covered; the end-to-end command grid (obiconvert/obigrep/obiannotate) is judged by the oracle only.")
-TRUSTED = ["Go runtime primitives (channels, sync.WaitGroup, goroutine scheduling) are the model's primitives: a goroutine loop is "
-           "modelled as a fold over its arrival history; absence of deadlock is observed under a deadline, not proved"]
+         "SortBatches (via Common/Reseq), Rebatch, FilterEmpty, FilterOn/FilterAnd (also on paired streams), DivideOn, Distribute (also "
+         "followed by an order-sensitive consumer per output: dispatcher path), Concat, Pool, IBatchOver, Load/CompleteFileIterator, PairTo, "
+         "PairedWith, IFragments, IMergeSequenceBatch, the (conditional) worker pool under any schedule, Split consumers under any "
+         "assignment of batches, and the reader->workers->filter->rebatch->resequencer pipeline deliver exactly the expected records in "
+         "input order with output numbers 0..m-1. The close protocol (Add/Done/WaitAndClose/Split) is a transition system of processes "
+         "over Go's primitives: for EVERY well-formed instance and every schedule, no panic, no deadlock, every maximal run closes every "
+         "output exactly once after its last push and every Split consumer observes the end; every combinator's instance is proved "
+         "well-formed. On every run the REAL combinators are fed explicit histories (all permutations of small batch-number sets, random "
+         "partitions, 0..8 workers), drained under a deadline, judged by a direct Python oracle and compared with the model by vm_compute; "
+         "the Add/Done/Wait/Push/Close/End events logged by the real iterators (verif hook, per goroutine) are replayed by vm_compute as a "
+         "complete run of a well-formed instance of the proved transition system; long streams (3-4 million one-record batches) go through "
+         "the worker pool, FilterOn/FilterAnd, DivideOn, Distribute, Rebatch and SortBatches; commands run on inputs larger than the 1 MiB "
+         "reader buffer, several files (empty ones, --no-order), paired files.",
+    note="Trusted: gact_step IS Go's channel/WaitGroup semantics (send on closed / double close / negative counter panic, Wait blocks "
+         "while positive, end seen after close); the receive side of the unbuffered channels is abstracted (a push never blocks: a consumer "
+         "is alive until the close) and a goroutine that consumes one iterator to feed another is split in a consumer and a producer, so "
+         "deadlock freedom is per protocol instance, not for arbitrary compositions (observed under a deadline). A worker pool is 'any "
+         "permutation of the mapped batches' (LTS over take/emit labels proved to emit such a permutation). Speed and LimitMemory are "
+         "modelled as the identity (correspondence only; Speed needs stderr to be a character device: the harness gives it /dev/null). "
+         "MakeIConditionalWorker drops the records that do not satisfy the condition (transcribed, C16 observation). IFragments on paired "
+         "data unpairs the fragmented records (oracle only). The data race on the receiver variable re-assigned by `iterator = "
+         "iterator.SortBatches()` inside the goroutine of Rebatch/FilterEmpty/DivideOn/Distribute while the caller reads "
+         "iterator.IsPaired() is real for the race detector but cannot change an observable (both values carry the same paired mark; the "
+         "paired variants of these combinators are in the generator): recorded, not fixed. The end-to-end grids are judged by the oracle only.")
+TRUSTED = ["Go runtime primitives: gact_step (Model.v) is taken as the semantics of channel send/close, WaitGroup Add/Done/Wait and of a receiver "
+           "seeing the end of a channel; a goroutine loop is modelled as a fold over its arrival history; rendezvous on the unbuffered channels "
+           "is abstracted (pushes never block), so absence of deadlock across composed stages is observed under a deadline, not proved",
+           "verif hook pkg/obiiter/verif2_c03.go: the logged events (goroutine id parsed from runtime.Stack, iterator = channel identity, "
+           "log order = order of the mutex-protected appends, Push/Close logged before the operation, Wait after it returns) are what the "
+           "real iterators did"]
 
 IMPORTS = ("From Coq Require Import List NArith Bool. Import ListNotations.\n"
            "From OBI.C03 Require Import Model.\n")
 
 OPS_SINGLE = ["sortbatches", "rebatch", "filterempty", "filteron", "filterand", "divideon", "distribute", "worker",
               "worker_sorted", "copytee", "pipeline", "source"]
+# round 2: Split used directly, Speed, LimitMemory, Load, CompleteFileIterator, conditional workers, paired filters,
+# PairedWith, Distribute followed by an order-sensitive consumer per output (dispatcher path of obidistribute)
+OPS_R2 = ["split", "speed", "limitmemory", "load", "load_sorted", "completefile", "completefile_sorted", "condworker",
+          "condworker_sorted", "sliceworker", "filteron_p", "filterand_p", "pairedwith", "distribute_rebatch", "fragments_p"]
+HARNESS_OP = dict(filteron_p="filteron", filterand_p="filterand", fragments_p="fragments")
+NOT_SENT = ("tag", "malformed", "exhaustive", "nonumbering")
+
+
+def wire(c):
+    """the JSON sent to the harness"""
+    d = {k: v for k, v in c.items() if k not in NOT_SENT}
+    if c["op"] in HARNESS_OP:
+        d["op"] = HARNESS_OP[c["op"]]
+        d["paired"] = True
+    if c["op"] == "pairedwith":
+        d["paired"] = True
+    return d
 
 
 # ----------------------------------------------------------------------------------------------- generators
@@ -53,7 +90,16 @@ def rand_history(rng, maxb=8, maxrec=24, first_id=1):
     return history(parts, perm)
 
 
+nquick = [True]
+
+
 def params(rng, c):
+    if c["op"] == "limitmemory":
+        c.setdefault("frac", 2.0)
+    if c["op"] != "stress":
+        # protocol trace: every corpus / exhaustive case with few batches, a third of the others
+        few = sum(len(h) for h in c["streams"]) <= 3
+        c.setdefault("trace", (few and "exhaustive" in c) or rng.random() < (0.34 if nquick[0] else 0.05))
     c.setdefault("size", rng.choice([1, 1, 2, 2, 3, 4, 5, 7, 50]))
     c.setdefault("nw", rng.randrange(1, 9))
     c.setdefault("mod", rng.choice([1, 2, 2, 3, 3, 4, 5]))
@@ -88,6 +134,27 @@ CORPUS = [
     dict(op="pool", streams=[[], [dict(o=0, ids=[])], []]),
     dict(op="pool", streams=[[dict(o=0, ids=[1]), dict(o=1, ids=[2])], [dict(o=0, ids=[3])], [dict(o=1, ids=[5]), dict(o=0, ids=[4])]]),
     dict(op="pairto", size=2, streams=[[dict(o=0, ids=[1, 2, 3])], [dict(o=1, ids=[13]), dict(o=0, ids=[11, 12])]]),
+    # witnesses of round 2: a worker count of 0 (obigrep --max-cpu 0: CLIParallelWorkers() has no lower bound)
+    dict(op="filteron", nw=0, mod=2, size=2, streams=[[dict(o=1, ids=[3, 4]), dict(o=0, ids=[1, 2])]], tag="zero-workers"),
+    dict(op="filterand", nw=0, mod=2, size=2, streams=[[]], tag="zero-workers"),
+    dict(op="fragments", nw=0, size=2, minsize=10, length=10, overlap=2, streams=[[dict(o=0, ids=[3, 9])]], tag="zero-workers"),
+    # round 2 boundary cases
+    dict(op="split", nw=3, streams=[[dict(o=1, ids=[3, 4]), dict(o=0, ids=[1, 2]), dict(o=2, ids=[])]]),
+    dict(op="split", nw=4, streams=[[]]),
+    dict(op="speed", streams=[[dict(o=1, ids=[3, 4]), dict(o=0, ids=[1, 2])]]),
+    dict(op="speed", streams=[[]]),
+    dict(op="limitmemory", frac=0.0, streams=[[dict(o=1, ids=[3, 4]), dict(o=0, ids=[1, 2])]], dl=30000, tag="memory limit always exceeded: forwards after 10000 yields"),
+    dict(op="completefile", streams=[[]]),
+    dict(op="completefile_sorted", streams=[[dict(o=1, ids=[]), dict(o=0, ids=[])]]),
+    dict(op="completefile_sorted", streams=[[dict(o=1, ids=[3, 4]), dict(o=0, ids=[1, 2])]]),
+    dict(op="load_sorted", streams=[[dict(o=1, ids=[3, 4]), dict(o=2, ids=[]), dict(o=0, ids=[1, 2])]]),
+    dict(op="condworker_sorted", nw=2, mod=3, mod2=2, streams=[[dict(o=1, ids=[3, 4]), dict(o=0, ids=[1, 2])]]),
+    dict(op="filteron_p", nw=2, mod=2, size=2, streams=[[dict(o=1, ids=[3, 4]), dict(o=0, ids=[1, 2])]]),
+    dict(op="filterand_p", nw=2, mod=2, size=2, streams=[[dict(o=1, ids=[3, 4, 6, 8]), dict(o=0, ids=[1, 2])]]),
+    dict(op="pairedwith", streams=[[dict(o=1, ids=[3, 4]), dict(o=0, ids=[1, 2])]]),
+    dict(op="distribute_rebatch", size=2, mod=2, mod2=3, streams=[[dict(o=1, ids=[3, 4, 5, 6, 7]), dict(o=0, ids=[1, 2])]]),
+    dict(op="distribute_rebatch", size=1, mod=3, mod2=1, streams=[[]]),
+    dict(op="fragments_p", nw=2, size=2, minsize=10, length=10, overlap=2, streams=[[dict(o=0, ids=[3, 9])]]),
     # malformed numbering (outside the hypothesis of the property: model correspondence only)
     dict(op="sortbatches", streams=[[dict(o=0, ids=[1]), dict(o=2, ids=[3]), dict(o=3, ids=[4])]], malformed=True),
     dict(op="sortbatches", streams=[[dict(o=1, ids=[1]), dict(o=1, ids=[2]), dict(o=0, ids=[3]), dict(o=2, ids=[4])]], malformed=True),
@@ -97,7 +164,8 @@ CORPUS = [
 
 def gen_cases(ctx, scale=1):
     rng = ctx.rng
-    cases = [params(rng, dict(c)) for c in CORPUS]
+    nquick[0] = ctx.quick
+    cases = [params(rng, dict(c, trace=True)) for c in CORPUS]
     # exhaustive: every arrival permutation of n batch numbers
     maxn = 5 if ctx.quick else 7
     exh = 0
@@ -107,9 +175,11 @@ def gen_cases(ctx, scale=1):
             parts[rng.randrange(n)] = []           # at least one empty batch
         perms = list(itertools.permutations(range(n)))
         for perm in perms:
-            ops = ["sortbatches", "rebatch"] + [rng.choice(["filterempty", "divideon", "distribute", "filteron", "worker_sorted", "pipeline", "concat_sorted"])]
+            ops = ["sortbatches", "rebatch"] + [rng.choice(["filterempty", "divideon", "distribute", "filteron", "worker_sorted", "pipeline", "concat_sorted"])] + \
+                  [rng.choice(["split", "completefile_sorted", "condworker_sorted", "filterand_p", "filteron_p", "distribute_rebatch", "load_sorted"])]
             if len(perms) <= 24:
-                ops = ["sortbatches", "rebatch", "filterempty", "divideon", "distribute", "filteron", "worker_sorted", "pipeline", "concat_sorted"]
+                ops = ["sortbatches", "rebatch", "filterempty", "divideon", "distribute", "filteron", "worker_sorted", "pipeline", "concat_sorted",
+                       "split", "completefile_sorted", "condworker_sorted", "filterand_p", "filteron_p", "distribute_rebatch"]
             for op in ops:
                 c = params(rng, dict(op=op, streams=[history(parts, perm)], exhaustive=n))
                 if op == "concat_sorted":
@@ -122,6 +192,20 @@ def gen_cases(ctx, scale=1):
     for op in OPS_SINGLE:
         for _ in range(nrand if op != "copytee" else nrand // 4):
             cases.append(params(rng, dict(op=op, streams=[rand_history(rng)])))
+    for op in PAIRED_OPS:       # paired streams through the combinators that must keep the paired mark and the mates
+        for _ in range(max(nrand // 6, 2)):
+            if op in ("concat", "concat_sorted", "pool"):
+                streams = [rand_history(rng, 4, 8, 1 + 40 * k) for k in range(rng.randrange(1, 4))]
+            else:
+                streams = [rand_history(rng)]
+            cases.append(params(rng, dict(op=op, paired=True, streams=streams)))
+    for op in OPS_R2:
+        for _ in range(nrand // 3 if op in ("speed", "limitmemory", "load", "completefile", "sliceworker", "pairedwith", "load_sorted", "condworker") else (2 * nrand) // 3):
+            c = dict(op=op, streams=[rand_history(rng)])
+            if op == "fragments_p":
+                length = rng.choice([5, 8, 10, 20, 30])
+                c.update(length=length, overlap=rng.randrange(0, length - 1), minsize=rng.choice([length, length + 3, 2 * length, 0]))
+            cases.append(params(rng, c))
     # multi-stream: concat / pool with empty streams at every position
     for op in ("concat", "concat_sorted", "pool", "readfiles", "readfiles_par"):
         for _ in range(nrand):
@@ -135,7 +219,7 @@ def gen_cases(ctx, scale=1):
             cases.append(params(rng, dict(op=op, streams=streams)))
     # worker counts 1..8 on one history
     for nw in range(1, 9):
-        for op in ("worker", "worker_sorted", "filteron", "pipeline"):
+        for op in ("worker", "worker_sorted", "filteron", "pipeline", "split", "condworker", "filterand_p"):
             for _ in range(3 if ctx.quick else 40):
                 cases.append(params(rng, dict(op=op, nw=nw, streams=[rand_history(rng)], **{"yield": rng.choice([0, 30, 100])})))
     # batchover
@@ -179,6 +263,15 @@ def wf(mod, i):
     return [] if i % mod == 0 else ([i, i + 500] if i % mod == 1 else [i])
 
 
+def mate(i):
+    return 1000 + (i * 7 + i // 3) % 50
+
+
+def subseq(a, b):
+    it = iter(b)
+    return all(any(x == y for y in it) for x in a)
+
+
 def long_seq(i):
     return "".join("acgt"[(i + j * j + j // 3) % 4] for j in range(1 + (7 * i) % 61))
 
@@ -210,8 +303,27 @@ def chunked(bs, size, what):
     return None
 
 
+PAIRED_OPS = ("sortbatches", "rebatch", "filterempty", "divideon", "concat", "concat_sorted", "pool", "worker_sorted", "completefile_sorted",
+              "speed", "limitmemory", "copytee")
+
+
 def oracle(c, o):
     """None if the observation satisfies the property on this case, else a text saying what fails."""
+    why = oracle_core(c, o)
+    if why is None and c.get("paired") and c["op"] in PAIRED_OPS and not c.get("malformed"):
+        # a paired stream stays paired through the combinator: the output iterators are marked paired (the writers
+        # decide on that mark whether the file of mates is written) and every record is still linked to its mate
+        for x in o["outs"]:
+            if not x.get("paired"):
+                return "%s on a paired stream returns an iterator that is not marked paired (output %d)" % (c["op"], x["key"])
+            for b in x["batches"]:
+                exp = [mate(i) if i < 500 else -1 for i in b["ids"]]
+                if [p if i < 500 else -1 for i, p in zip(b["ids"], b.get("pids") or [])] != exp:
+                    return "%s: batch %d: records %s are linked to mates %s, expected %s" % (c["op"], b["o"], b["ids"], b.get("pids"), exp)
+    return why
+
+
+def oracle_core(c, o):
     if c.get("malformed"):
         return None
     op = c["op"]
@@ -226,6 +338,8 @@ def oracle(c, o):
     if not o["term"]:
         return "termination: not every output stream was closed before the deadline (closed=%s)" % [x["closed"] for x in o["outs"]]
     outs = {x["key"]: x["batches"] for x in o["outs"]}
+    if c.get("paired") and op in PAIRED_OPS:      # the mates are judged by oracle(); here the records
+        outs = {k: [dict(o=b["o"], ids=b["ids"]) for b in bs] for k, bs in outs.items()}
     S = c["streams"]
     size = c.get("size", 1)
     for h in S:
@@ -235,9 +349,62 @@ def oracle(c, o):
     def same(got, exp, what):
         return None if got == exp else "%s: got %s expected %s" % (what, got, exp)
 
-    if op in ("sortbatches", "source"):
+    def noextra(bs):
+        return [dict(o=b["o"], ids=b["ids"]) for b in bs]
+
+    def mates_ok(bs, what):
+        for b in bs:
+            if b.get("pids") != [mate(i) for i in b["ids"]]:
+                return "%s: batch %d: records %s are linked to mates %s, expected %s" % (what, b["o"], b["ids"], b.get("pids"), [mate(i) for i in b["ids"]])
+        return None
+
+    if op in ("sortbatches", "source", "speed", "limitmemory"):
         exp = sorted(S[0], key=lambda b: b["o"]) if op == "sortbatches" else S[0]
         return same(out0, exp, "delivered batches")
+    if op == "split":
+        per = [x["batches"] for x in o["outs"]]
+        if len(per) != max(c["nw"], 1):
+            return "split: %d consumers observed, %d started" % (len(per), c["nw"])
+        key = lambda b: (b["o"], tuple(b["ids"]))
+        if sorted(key(b) for bs in per for b in bs) != sorted(key(b) for b in S[0]):
+            return "split: the batches received by the %d consumers %s are not exactly the batches pushed %s" % (len(per), per, S[0])
+        for bs in per:
+            if not subseq(bs, S[0]):
+                return "split: a consumer received %s, not in channel order %s" % (bs, S[0])
+        return None
+    if op in ("load", "load_sorted", "completefile", "completefile_sorted"):
+        allr = recs(S[0]) if op.endswith("_sorted") else flat(S[0])
+        if op.startswith("load"):
+            return same(out0, [dict(o=0, ids=allr)], "loaded slice")
+        return same(out0, [dict(o=0, ids=allr)] if allr else [], "single batch of the complete file")
+    if op in ("condworker", "condworker_sorted", "sliceworker"):
+        sel = (lambda i: True) if op == "sliceworker" else (lambda i: pred(c["mod2"], i))
+        exp = [dict(o=b["o"], ids=[j for i in b["ids"] if sel(i) for j in wf(c["mod"], i)]) for b in sorted(S[0], key=lambda b: b["o"])]
+        got = out0 if op != "condworker" else sorted(out0, key=lambda b: b["o"])
+        return same(got, exp, "delivered batches")
+    if op in ("filteron_p", "filterand_p"):
+        keep = (lambda i: pred(c["mod"], i)) if op == "filteron_p" else (lambda i: pred(c["mod"], i) and pred(c["mod"], mate(i)))
+        if not o["outs"][0].get("paired"):
+            return "%s on a paired stream returns an iterator that is not marked paired" % op
+        return same(flat(out0), [i for i in recs(S[0]) if keep(i)], "records") or mates_ok(out0, op) or chunked(out0, size, op)
+    if op == "pairedwith":
+        return same(noextra(out0), [dict(o=b["o"], ids=[mate(i) for i in b["ids"]]) for b in S[0]], "batches of mates") or \
+               same([dict(o=b["o"], ids=b.get("pids") or []) for b in out0], S[0], "records the mates are linked back to")
+    if op == "distribute_rebatch":
+        r = recs(S[0])
+        mod = max(c["mod"], 1)
+        keys = []
+        for i in r:
+            if i % mod not in keys:
+                keys.append(i % mod)
+        e = same(o.get("news", []), keys, "announced keys") or same(sorted(outs), sorted(keys), "output streams")
+        if e:
+            return e
+        for k in keys:
+            e = same(flat(outs[k]), [i for i in r if i % mod == k], "stream of key %d" % k) or chunked(outs[k], max(c["mod2"], 1), "stream of key %d" % k)
+            if e:
+                return e
+        return None
     if op == "rebatch":
         return same(flat(out0), recs(S[0]), "records") or chunked(out0, size, "rebatch")
     if op == "filterempty":
@@ -308,7 +475,7 @@ def oracle(c, o):
         return same(flat(out0), exp, "records") or chunked(out0, size, "pipeline")
     if op == "merge":
         return same(flat(out0), [b["ids"][0] for b in S[0]], "merged records (one per input batch, arrival order)") or chunked(out0, size, "merge")
-    if op == "fragments":
+    if op in ("fragments", "fragments_p"):
         e = chunked(out0, size, "fragments")
         if e:
             return e
@@ -330,6 +497,8 @@ def oracle(c, o):
             if len(full) <= c["minsize"]:
                 if fs != [full]:
                     return "fragments: record %d (length %d <= minsize) must pass unchanged, got %s" % (i, len(full), fs)
+                if op == "fragments_p" and [p for b in out0 for j, p in zip(b["ids"], b.get("pids") or []) if j == i] != [mate(i)]:
+                    return "fragments: record %d passes unchanged but lost its mate" % i
                 continue
             if "".join(f[:step] for f in fs[:-1]) + fs[-1] != full:
                 return "fragments: the non-overlapping parts of the fragments of record %d do not rebuild its sequence" % i
@@ -370,22 +539,24 @@ def hist(h):
     return "[" + ";".join("(%d,%s)" % (b["o"], nl(b["ids"])) for b in h) + "]"
 
 
-OPC = dict(source="OSource", sortbatches="OSort", rebatch="ORebatch", filterempty="OFilterEmpty", filteron="OFilterOn",
+OPC = dict(split="OSplit", speed="OForward", limitmemory="OForward", load="OLoad", load_sorted="OLoadSorted", completefile="OCompleteFile",
+           completefile_sorted="OCompleteFileSorted", condworker="OCondWorker", condworker_sorted="OCondWorkerSorted", sliceworker="OWorkerSorted",
+           filteron_p="OFilterOnP", filterand_p="OFilterAndP", pairedwith="OPairedWith", distribute_rebatch="ODistRebatch", source="OSource", sortbatches="OSort", rebatch="ORebatch", filterempty="OFilterEmpty", filteron="OFilterOn",
            filterand="OFilterOn", divideon="ODivideOn", distribute="ODistribute", concat="OConcat", concat_sorted="OConcatSorted",
            pool="OPool", worker="OWorker", worker_sorted="OWorkerSorted", batchover="OBatchOver", copytee="OCopyTee",
-           pipeline="OPipeline", readfiles="OReadFiles", readfiles_par="OReadFilesPar", pairto="OPairTo", fragments="OFragments", merge="OMerge")
+           pipeline="OPipeline", readfiles="OReadFiles", readfiles_par="OReadFilesPar", pairto="OPairTo", fragments="OFragments", fragments_p="OFragments", merge="OMerge")
 
 
 def case_term(c, o):
     outs = "[" + ";".join("(%d,%s)" % (x["key"], hist(x["batches"])) for x in o["outs"]) + "]"
-    if c["op"] == "pairto":      # key 0: forward records, key 1: the mates they are linked to
+    if c["op"] in ("pairto", "filteron_p", "filterand_p", "pairedwith"):      # key 0: the records, key 1: the mates they are linked to
         bs = o["outs"][0]["batches"] if o["outs"] else []
         outs = "[(0,%s);(1,%s)]" % (hist(bs), hist([dict(o=b["o"], ids=b.get("pids") or []) for b in bs]))
     streams = "[" + ";".join(hist(h) for h in c["streams"]) + "]"
     kind = "KPanic" if o["kind"] == "panic" else ("KFatal" if o.get("fatal") else ("KOk" if o["term"] else "KHang"))
     opc = OPC[c["op"]]
     fouts = "[]"
-    if c["op"] == "fragments":
+    if c["op"] in ("fragments", "fragments_p"):
         opc = "(OFragments %d %d %d)" % (c["minsize"], c["length"], c["overlap"])
         bs = o["outs"][0]["batches"] if o["outs"] else []
         fouts = "[" + ";".join("(%d,[%s])" % (b["o"], ";".join(nl(["acgt".index(ch) for ch in q]) for q in b.get("seqs") or [])) for b in bs) + "]"
@@ -427,6 +598,10 @@ def e2e_cases(ctx):
                 cases.append(dict(cmd="obigrep", args=opt + ["-l", str(L), "--save-discarded", "@discarded", name], stdin=None, exp=sel, extra={"@discarded": rej}))
                 cases.append(dict(cmd="obiannotate", args=opt + ["--length", name], stdin=None, exp=ids, extra={}))
             cases.append(dict(cmd="obiconvert", args=opt, stdin="big", exp=[i for i, _ in sets["big"]], extra={}))
+            if cpu == cpus[0]:      # a worker count of 0 is accepted by the option parser
+                r = sets["big"]
+                cases.append(dict(cmd="obigrep", args=["--max-cpu", "0", "--batch-size", str(bs), "-l", str(L), "big"], stdin=None,
+                                  exp=[i for i, s in r if len(s) >= L], extra={}))
             for files in (["big", "second"], ["empty", "second"], ["one", "empty", "second"]):
                 cases.append(dict(cmd="obiconvert", args=opt + files, stdin=None, exp=[i for f in files for i, _ in sets[f]], extra={}))
     return sets, cases
@@ -452,6 +627,8 @@ def e2e_run(ctx, bindir, sets, c, wd):
             args.append(a)
     inp = fasta(sets[c["stdin"]]).encode() if c["stdin"] else b""
     rc, out, err, dt = vlib.sh([os.path.join(bindir, c["cmd"])] + args, timeout=60, inp=inp)
+    if rc == 124:        # stalled host: once more before calling it a hang
+        rc, out, err, dt = vlib.sh([os.path.join(bindir, c["cmd"])] + args, timeout=120, inp=inp)
     obs = dict(rc=rc, ids=out_ids(out), extra={k: (out_ids(open(p).read()) if os.path.exists(p) else None) for k, p in extra_paths.items()})
     why = None
     if rc == 124:
@@ -488,6 +665,129 @@ def e2e(ctx, broken):
     ctx.cov["e2e_command_runs"] = len(cases)
     ctx.cov["e2e_grid"] = "obiconvert/obigrep(-l, --save-discarded)/obiannotate x --max-cpu x --batch-size x {240+ records, 1 record, empty, stdin, several files incl. empty first}"
 
+# ----------------------------------------------------------------------------------------------- end to end, round 2
+def ids_of(text):
+    """record identifiers of a fasta / fastq text, in file order"""
+    lines = text.splitlines()
+    if lines and lines[0].startswith("@"):
+        return [l[1:].split()[0] for l in lines[0::4]]
+    return [l[1:].split()[0] for l in lines if l.startswith(">")]
+
+
+def e2e2_files(ctx, wd):
+    """inputs LARGER than the 1 MiB read buffer of the readers (a smaller file is a single chunk whatever --batch-size, so the
+    parser workers never deliver out of order), an empty file, a pair of fastq files of mates"""
+    rng = ctx.rng
+    def sq(n):
+        return "".join(rng.choices("acgt", k=n))
+    F = {}
+    F["hugeA"] = [("h%d" % (k + 1), sq(rng.randrange(150, 380)), "s%d" % rng.randrange(5)) for k in range(9000)]
+    F["hugeB"] = [("g%d" % (k + 1), sq(rng.randrange(150, 380)), "s%d" % rng.randrange(5)) for k in range(4500)]
+    F["none"] = []
+    F["fwd"] = [("p%d" % (k + 1), sq(rng.randrange(20, 60)), "") for k in range(13000)]
+    F["rev"] = [("p%d" % (k + 1), sq(rng.randrange(20, 60)), "") for k in range(13000)]
+    os.makedirs(wd, exist_ok=True)
+    paths = {}
+    for name, recs in F.items():
+        fq = name in ("fwd", "rev")
+        paths[name] = os.path.join(wd, name + (".fastq" if fq else ".fasta"))
+        with open(paths[name], "w") as f:
+            for i, q, smp in recs:
+                f.write("@%s\n%s\n+\n%s\n" % (i, q, "I" * len(q)) if fq else ">%s {\"sample\":\"%s\"}\n%s\n" % (i, smp, q))
+    return F, paths
+
+
+def e2e2_cases(ctx, F):
+    grid = [(2, 100), (8, 1700), (8, 100)] if ctx.quick else [(c, b) for c in (1, 2, 3, 8, 16) for b in (10, 100, 1700, 5000)]
+    ids = {n: [r[0] for r in F[n]] for n in F}
+    L = 250
+    both30 = [a[0] for a, b in zip(F["fwd"], F["rev"]) if len(a[1]) >= 30 and len(b[1]) >= 30]
+    cases = []
+    for k, (cpu, bs) in enumerate(grid):
+        opt = ["--max-cpu", str(cpu), "--batch-size", str(bs)]
+        def add(cmd, args, stdout=None, files=None, per_file=None):
+            cases.append(dict(cmd=cmd, args=opt + args, stdout=stdout, files=files or {}, per_file=per_file))
+        add("obiconvert", ["hugeA"], stdout=ids["hugeA"])
+        add("obigrep", ["-l", str(L), "hugeA"], stdout=[r[0] for r in F["hugeA"] if len(r[1]) >= L])
+        add("obiconvert", ["hugeA", "none", "hugeB"], stdout=ids["hugeA"] + ids["hugeB"])
+        add("obiconvert", ["--no-order", "hugeB", "none", "hugeA"], per_file=[ids["hugeB"], ids["hugeA"]])
+        add("obiconvert", ["fwd"], stdout=ids["fwd"])
+        add("obiconvert", ["--paired-with", "rev", "fwd", "--out", "@P.fastq"], files={"P_R1.fastq": ids["fwd"], "P_R2.fastq": ids["rev"]})
+        add("obigrep", ["-l", "30", "--paired-mode", "and", "--paired-with", "rev", "fwd", "--out", "@G.fastq"], files={"G_R1.fastq": both30, "G_R2.fastq": both30})
+        add("obidistribute", ["-c", "sample", "-p", "@D_%s.fasta", "hugeA"],
+            files={"D_s%d.fasta" % v: [r[0] for r in F["hugeA"] if r[2] == "s%d" % v] for v in range(5)})
+        add("obipairing", ["-F", "fwd", "-R", "rev"], stdout=ids["fwd"])
+        if k == 0 or not ctx.quick:
+            add("obiannotate", ["--length", "hugeB", "hugeA"], stdout=ids["hugeB"] + ids["hugeA"])
+    return cases
+
+
+def e2e2_run(bindir, paths, c, wd):
+    import shutil
+    shutil.rmtree(wd, ignore_errors=True)
+    os.makedirs(wd)
+    args = [paths[a] if a in paths else (os.path.join(wd, a[1:]) if a.startswith("@") else a) for a in c["args"]]
+    rc, out, err, dt = vlib.sh([os.path.join(bindir, c["cmd"])] + args, timeout=120)
+    if rc == 124:        # stalled host: once more before calling it a hang
+        shutil.rmtree(wd, ignore_errors=True)
+        os.makedirs(wd)
+        rc, out, err, dt = vlib.sh([os.path.join(bindir, c["cmd"])] + args, timeout=240)
+    got = ids_of(out)
+    obs = dict(rc=rc, n_stdout=len(got), first_stdout=got[:10], files={})
+    if rc == 124:
+        return obs, "termination: the command did not finish within 120 s"
+    if rc != 0:
+        return obs, "exit code %d: %s" % (rc, err[-300:])
+    def cmp(got, exp, what):
+        if got == exp:
+            return None
+        if sorted(got) == sorted(exp):
+            k = next(i for i, (a, b) in enumerate(zip(got, exp)) if a != b)
+            return "%s: the %d records are delivered in another order (first difference at position %d: %s instead of %s)" % (what, len(exp), k, got[k], exp[k])
+        return "%s: %d records delivered, %d expected (%d missing, %d unexpected or duplicated)" % (
+            what, len(got), len(exp), len(set(exp) - set(got)), len(got) - len(set(got) & set(exp)))
+    why = None
+    if c["stdout"] is not None:
+        why = cmp(got, c["stdout"], "stdout")
+    if c["per_file"] is not None:      # --no-order: files may interleave, each keeps its own order, nothing lost
+        for exp in c["per_file"]:
+            mine = set(exp)
+            why = why or cmp([i for i in got if i in mine], exp, "records of one input file")
+        why = why or (None if len(got) == sum(len(e) for e in c["per_file"]) else "stdout: %d records for %d in the inputs" % (len(got), sum(len(e) for e in c["per_file"])))
+    for fn, exp in c["files"].items():
+        p = os.path.join(wd, fn)
+        g = ids_of(open(p).read()) if os.path.exists(p) else None
+        obs["files"][fn] = None if g is None else len(g)
+        why = why or ("output file %s is missing" % fn if g is None else cmp(g, exp, fn))
+    extra = sorted(set(os.listdir(wd)) - set(c["files"]))
+    if extra and not why:
+        why = "unexpected output files %s" % extra
+    return obs, why
+
+
+def e2e2(ctx, broken):
+    bindir, err = ctx.build_cmds(["obiconvert", "obigrep", "obiannotate", "obidistribute", "obipairing"])
+    if bindir is None:
+        broken.append(dict(kind="command-build", detail=err))
+        return
+    base = os.path.join(vlib.BUILD, "c03_e2e2_" + hashlib.sha1(vlib.REPO.encode()).hexdigest()[:8])
+    F, paths = e2e2_files(ctx, os.path.join(base, "in"))
+    cases = e2e2_cases(ctx, F)
+    from concurrent.futures import ThreadPoolExecutor
+    with ThreadPoolExecutor(max_workers=3) as ex:
+        res = list(ex.map(lambda kc: e2e2_run(bindir, paths, kc[1], os.path.join(base, "out%d" % kc[0])), enumerate(cases)))
+    nbad = 0
+    for k, (c, (obs, why)) in enumerate(zip(cases, res)):
+        if why:
+            nbad += 1
+            if nbad <= 2:
+                ctx.violation("e2e2_%d" % k, dict(property="C03", kind="e2e2", case=dict(cmd=c["cmd"], args=c["args"]), seed=ctx.seed, tier=ctx.tier,
+                                                 implementation=obs, expected=why,
+                                                 note="inputs are regenerated from the seed: replay re-runs the whole round-2 end-to-end grid"))
+    ctx.cov["e2e2_command_runs"] = len(cases)
+    ctx.cov["e2e2_grid"] = ("obiconvert / obigrep / obiannotate / obidistribute -c / obipairing / paired obiconvert and obigrep (--paired-with, _R1/_R2 files) on "
+                            "inputs of 1.2-2.5 MiB (several 1 MiB reader chunks), several files incl. an empty one, --no-order, x --max-cpu x --batch-size")
+
 # ----------------------------------------------------------------------------------------------- race detector (thorough)
 def race_run(ctx, cases):
     """Thorough tier: the same cases through a -race build of the harness. Reports are summarised in the evidence
@@ -498,7 +798,7 @@ def race_run(ctx, cases):
     if b is None:
         ctx.cov["race"] = "race build failed: " + (err or "")[-300:]
         return
-    inp = "".join(json.dumps({k: v for k, v in c.items() if k not in ("tag", "malformed", "exhaustive", "nonumbering")}) + "\n" for c in cases).encode()
+    inp = "".join(json.dumps(dict(wire(c), trace=False)) + "\n" for c in cases).encode()
     rc, out, err, dt = vlib.sh("%s c03" % b, inp=inp, timeout=1800, env=dict(os.environ, GORACE="exitcode=0 halt_on_error=0"))
     sig = {}
     for r in err.split("WARNING: DATA RACE")[1:]:
@@ -511,7 +811,18 @@ def race_run(ctx, cases):
 
 # ----------------------------------------------------------------------------------------------- run
 def evaluate(ctx, cases, broken, label, report=True):
-    obs = ctx.vh_robust("c03", [{k: v for k, v in c.items() if k not in ("tag", "malformed", "exhaustive", "nonumbering")} for c in cases], timeout=1800, one_timeout=40)
+    obs = ctx.vh_robust("c03", [wire(c) for c in cases], timeout=1800, one_timeout=40)
+    # a case that missed its deadline on a machine that stalled the harness process (overloaded host, throttled cgroup) is run
+    # again, alone in a fresh process with a longer deadline; a genuine hang (CopyTee before its fix, a missing Done) is
+    # deterministic and fails again
+    stalled = [i for i, (c, o) in enumerate(zip(cases, obs))
+               if o.get("kind") == "ok" and not o.get("term") and not o.get("fatal") and not known_key(c, o) and oracle(c, o)]
+    if 0 < len(stalled) <= 20:
+        for i in stalled:
+            o2 = ctx.vh_robust("c03", [dict(wire(cases[i]), dl=30000)], timeout=120, one_timeout=120)[0]
+            if o2.get("kind") == "ok" and o2.get("term"):
+                obs[i] = o2
+                ctx.cov["cases_rerun_after_a_missed_deadline"] = ctx.cov.get("cases_rerun_after_a_missed_deadline", 0) + 1
     nviol, perop = 0, {}
     for i, (c, o) in enumerate(zip(cases, obs)):
         why = oracle(c, o)
@@ -530,7 +841,62 @@ def evaluate(ctx, cases, broken, label, report=True):
     if bad is None:
         broken.append(dict(kind="correspondence", detail=err))
         return obs, [], nviol
+    # protocol traces: the events logged by the real iterators must be a complete run of a well-formed instance of the
+    # process model (C03_protocol_* theorems), replayed by vm_compute
+    tidx = [i for i in idx if obs[i].get("trace") and obs[i]["kind"] == "ok" and obs[i]["term"] and not obs[i].get("fatal")]
+    tbad, terr = ctx.correspond(label + "_trace", IMPORTS, ["(%s,%s)" % (shape_of(cases[i]), trace_term(obs[i]["trace"])) for i in tidx], fn="trace_mismatches", shard=150)
+    if tbad is None:
+        broken.append(dict(kind="correspondence", detail=terr))
+    else:
+        ctx.cov["protocol_traces_replayed"] = ctx.cov.get("protocol_traces_replayed", 0) + len(tidx)
+        ctx.cov["protocol_trace_events"] = ctx.cov.get("protocol_trace_events", 0) + sum(len(obs[i]["trace"]) for i in tidx)
+        # a trace cut while a goroutine that no output waits for was still finishing (loaded machine): record again,
+        # waiting longer for quiescence; only a trace that is rejected every time counts
+        still = tbad
+        for attempt in range(2):
+            if not still:
+                break
+            o2 = ctx.vh_robust("c03", [dict(wire(cases[tidx[k]]), quiet=80 * (attempt + 1)) for k in still], timeout=900, one_timeout=60)
+            good = [j for j, o in enumerate(o2) if o.get("kind") == "ok" and o.get("term") and o.get("trace") and not o.get("fatal")]
+            b2, e2 = ctx.correspond(label + "_trace_retry", IMPORTS,
+                                    ["(%s,%s)" % (shape_of(cases[tidx[still[j]]]), trace_term(o2[j]["trace"])) for j in good], fn="trace_mismatches", shard=150)
+            if b2 is None:
+                break
+            bad2 = {good[i] for i in b2} | (set(range(len(still))) - set(good))
+            ctx.cov["protocol_traces_rerecorded"] = ctx.cov.get("protocol_traces_rerecorded", 0) + len(still) - len(bad2)
+            still = [still[j] for j in sorted(bad2)]
+        tbad = still
+        if tbad:
+            i = tidx[tbad[0]]
+            broken.append(dict(kind="correspondence", name="corr:C03/protocol-trace/%s" % cases[i]["op"], first_diverging_case=cases[i],
+                               implementation=obs[i], n_diverging=len(tbad),
+                               detail="the Add/Done/Wait/Push/Close/End events logged by the real iterators are not a complete run of a well-formed protocol instance"))
     return obs, [idx[i] for i in bad], nviol
+
+
+def shape_of(c):
+    """the row of the table combinator -> protocol instance (Model.v, inst_*) that the trace of this case must contain"""
+    op, nw = c["op"], max(c.get("nw", 1), 1)
+    if op in ("worker", "worker_sorted", "condworker", "condworker_sorted", "sliceworker", "filteron", "filterand", "filteron_p", "filterand_p",
+              "pipeline", "fragments", "fragments_p"):
+        return "ShStd %d" % nw
+    if op == "pool":
+        return "ShStd %d" % max(len(c["streams"]), 1)
+    if op == "split":
+        return "ShSplit %d" % nw
+    if op == "divideon":
+        return "ShDivide"
+    if op == "copytee":
+        return "ShTee"
+    if op in ("distribute", "distribute_rebatch"):
+        return "ShDist"
+    return "ShStd 1"
+
+
+def trace_term(tr):
+    for e in tr:
+        assert e[1] < 4096 and e[2] < 16 and 0 <= e[3] < 4096
+    return "[" + ";".join(str(((e[0] * 4096 + e[1]) * 16 + e[2]) * 4096 + e[3]) for e in tr) + "]%N"
 
 
 def run(ctx, broken):
@@ -549,7 +915,7 @@ def run(ctx, broken):
         dist[k] = dist.get(k, 0) + 1
     ctx.cov["distribution"] = dist
     ctx.cov["workers"] = sorted({c["nw"] for c in cases})
-    ctx.samples = [dict(case=c, implementation=o) for c, o in list(zip(cases, obs))[30:33] + list(zip(cases, obs))[-2:]]
+    ctx.samples = [dict(case=c, implementation={k: v for k, v in o.items() if k != "trace"}) for c, o in list(zip(cases, obs))[30:33] + list(zip(cases, obs))[-2:]]
     ctx.cov["model_vs_impl_mismatches"] = len(mism)
     if mism and not ctx.violations:
         more = gen_cases(ctx, scale=8)
@@ -562,6 +928,7 @@ def run(ctx, broken):
         ctx.cov["note"] = "model and implementation diverge on %d cases (violations reported by the direct oracle)" % len(mism)
     stress(ctx, broken)
     e2e(ctx, broken)
+    e2e2(ctx, broken)
     if not ctx.quick:
         race_run(ctx, cases[:6000])
 
@@ -570,24 +937,43 @@ def stress(ctx, broken):
     """Long streams of tiny batches through the parallel worker pool: every batch number 0..n-1 exactly once
     (a worker pool that loses / duplicates a batch only under a very narrow interleaving shows on long streams only)."""
     rounds = 40 if ctx.quick else 300
-    cases = [dict(op="stress", streams=[], data=[], size=20000, nw=nw, mod=rounds // 2, mod2=0, yield_=0) for nw in (4, 8)]
+    cases = [dict(op="stress", streams=[], data=[0], size=20000, nw=nw, mod=rounds // 2, mod2=0, name="workers_%d" % nw, what="MakeIWorker with %d workers" % nw) for nw in (4, 8)]
+    # round 2: the same long streams through the other combinators (cheap identity predicates / classifiers)
+    r2 = max(rounds // 2, 1)
+    for kind, name, nw in ((1, "filteron", 4), (6, "filterand", 3), (2, "divideon", 1), (3, "distribute", 1), (4, "rebatch", 1), (5, "sortbatches", 1), (7, "workers_rebatch", 4)):
+        cases.append(dict(op="stress", streams=[], data=[kind], size=20000, nw=nw, mod=r2, mod2=0, name=name, what=name))
     for c in cases:
-        c["yield"] = c.pop("yield_")
-    obs = ctx.vh_robust("c03", cases, timeout=600, one_timeout=300)
-    tot = 0
+        c["yield"] = 0
+    from concurrent.futures import ThreadPoolExecutor
+    with ThreadPoolExecutor(max_workers=3) as ex:
+        obs = list(ex.map(lambda c: ctx.vh_robust("c03", [{k: v for k, v in c.items() if k not in ("name", "what")}], timeout=900, one_timeout=900)[0], cases))
+    tot, per = 0, {}
     for c, o in zip(cases, obs):
-        tot += o.get("rounds", 0) * c["size"]
+        n = o.get("rounds", 0) * c["size"]
+        tot += n if c["data"][0] == 0 else 0
+        per[c["name"]] = n
         if o.get("kind") != "stress" or o.get("bad_rounds", 0) > 0:
-            ctx.violation("stress_workers_%d" % c["nw"], dict(property="C03", kind="direct-oracle", case=c, implementation=o,
-                          expected="every batch number 0..%d delivered exactly once by MakeIWorker with %d workers, in each of the %d rounds" % (c["size"] - 1, c["nw"], c["mod"]),
+            ctx.violation("stress_" + c["name"], dict(property="C03", kind="direct-oracle", case=c, implementation=o,
+                          expected="every one of the %d one-record batches delivered exactly once with the right number by %s, in each of the %d rounds" % (c["size"], c["what"], c["mod"]),
                           note="schedule dependent: replay runs the same stress again"))
     ctx.cov["stress_batches_through_worker_pool"] = tot
+    ctx.cov["stress_batches_per_combinator"] = per
 
 
 def replay(ctx, rp):
     c = rp["case"]
     if c.get("op") == "stress":
-        print("replay:", json.dumps(c), "->", json.dumps(ctx.vh_robust("c03", [c], timeout=600, one_timeout=300)[0]))
+        print("replay:", json.dumps(c), "->", json.dumps(ctx.vh_robust("c03", [{k: v for k, v in c.items() if k not in ("name", "what")}], timeout=900, one_timeout=900)[0]))
+        return
+    if rp.get("kind") == "e2e2":
+        ctx.seed, ctx.tier = rp.get("seed", ctx.seed), rp.get("tier", ctx.tier)
+        import random
+        ctx.rng = random.Random(ctx.seed * 1000003 + 3)
+        gen_cases(ctx)          # consume the generator exactly as run() does before e2e2
+        e2e_cases(ctx)
+        n0 = len(ctx.violations)
+        e2e2(ctx, [])
+        print("replay: round-2 end-to-end grid ->", "holds" if len(ctx.violations) == n0 else ctx.violations[n0:])
         return
     if rp.get("kind") == "e2e":
         bindir, err = ctx.build_cmds([c["cmd"]])
